@@ -160,6 +160,16 @@ pub fn run(tier: Tier) -> Run {
             run.add(v);
         }
     }
+    // ---- re-entrancy: a consumer that runs a complete second parse from inside a callback of the first (every ordered pair
+    //      of 12 small binaries x 7 callback positions): both parses give what they give alone
+    {
+        let (n, bad) = crate::util::nested_parse_sweep();
+        run.outcome("nested_parses", n);
+        for (why, rep) in bad.into_iter().take(3) {
+            let class = why.split(':').next().unwrap_or("").to_string();
+            run.add(viol(format!("C04:nested-parse:{}", class), why, rep));
+        }
+    }
     // deep nesting (the recursion depth a reader may reach is bounded by the instruction, never by the stack)
     {
         let deep = crate::universe::deep_nesting_words();
